@@ -19,6 +19,9 @@ def note_inputs(d):
             json.dump(d, f, default=str)
 
 
+DEFAULT_SOLVER_MS = [20000]
+
+
 class Case:
     """One solver question.
     base     : list of z3 constraints over the inputs (the bound)
@@ -197,7 +200,7 @@ def run_cases(cases, total_timeout):
         if remaining <= 1:
             out["inconclusive"] = f"time budget exhausted before case {case.label}"
             break
-        ex = Explorer(timeout_s=min(case.timeout or per_case * 3, remaining), solver_timeout_ms=case.solver_ms or 20000, logic=case.logic)
+        ex = Explorer(timeout_s=min(case.timeout or per_case * 3, remaining), solver_timeout_ms=case.solver_ms or DEFAULT_SOLVER_MS[0], logic=case.logic)
         # known findings: replay witness on the real code; exclude the region only while it still fails
         for fid, region, wit, what in case.known:
             try:
@@ -270,7 +273,7 @@ def run_cases(cases, total_timeout):
                     elif isinstance(v, SInt):
                         excl.append(v.e == state["violation"]["inputs"][k])
                 case.base.append(z3.Not(z3.And(*excl)))
-                ex = Explorer(timeout_s=min(case.timeout or per_case * 3, max(1, t_end - time.time())), solver_timeout_ms=case.solver_ms or 20000, logic=case.logic)
+                ex = Explorer(timeout_s=min(case.timeout or per_case * 3, max(1, t_end - time.time())), solver_timeout_ms=case.solver_ms or DEFAULT_SOLVER_MS[0], logic=case.logic)
                 ex.base = list(case.base)
                 state.update(violation=None, mismatch=None)
                 status = ex.explore(path_fn, on_path)
@@ -300,6 +303,7 @@ def run_cases(cases, total_timeout):
 
 def main():
     module, func, tier, part, timeout, prop = sys.argv[1:7]
+    DEFAULT_SOLVER_MS[0] = 20000 if tier == "quick" else 300000      # per-query solver timeout: the thorough tier has larger formulas
     _NOTE["path"] = os.environ.get("VF_NOTE_FILE")
     i, n = (int(x) for x in part.split("/"))
     try:
